@@ -293,10 +293,14 @@ impl Prop for C09 {
 
         let cause = |dir_client: bool| -> &'static str {
             let w = if dir_client { wrap_c } else { wrap_s };
+            // the two directions interleaved so that server data precedes the end of the client data
+            let interleaved = s.order.iter().position(|o| !o.0).map(|p| s.order[p..].iter().any(|o| o.0)).unwrap_or(false);
             if w {
                 "wrap"
             } else if out_of_order {
                 "order"
+            } else if interleaved {
+                "direction-interleaving"
             } else {
                 "segmentation"
             }
